@@ -2,14 +2,15 @@
 from __future__ import annotations
 
 import ast
+import copy
 from typing import Any, Callable
 
-from ..astutil import ERROR_CLASSES, ERROR_ONLY_HELPERS, Locals, call_name, names_in, norm, role_anon, where
+from ..astutil import ERROR_CLASSES, ERROR_ONLY_HELPERS, Locals, call_name, calls_in, names_in, norm, region, role_anon, where
 from ..core import PKG, Report
 from ..domain import RAW, RAW_NONSTR, UNKNOWN, is_esc
 
 LEVEL = ("path rules over the 14 builders and their convert_value implementations (every path of the function is walked with the "
-         "decisions taken on it): the default flows into convert_value, on every path a PropertyError result is returned and the "
+         "decisions taken on it, calls to the private helpers of its region are walked in place): the default flows into convert_value, on every path a PropertyError result is returned and the "
          "class is registered / the property returned only after the result was tested, the property stores the converted Value; "
          "convert_value rejects by default (every path without a positive type / membership / equality decision about the value "
          "ends in an error, every accepting return lies only on paths with such a decision, bool excluded wherever int is "
@@ -39,9 +40,14 @@ ACCEPTING = {"built", "conv", "valid", "other", "nonnull", "param"}
 #          answered "not an error")
 # Infeasible combinations are pruned (None is no error; two disjoint builtin types; bool without int).  Loops run to a fixpoint
 # over the finite state set, any statement of a try body may jump to its handlers.
+# A call to a private helper of the function's region (astutil.region: same module, `_name`, called by plain name / self. / cls. /
+# ClassName.) is walked in place: the helper's body runs on the caller's path with its parameters bound to the arguments (a parameter
+# that receives a plain name and is not re-bound in the helper simply IS that name, every other local of the helper gets a name of
+# its own), each of its returns continues the caller's path with what it returned.  So a rule sees the same paths, decisions and
+# statements whether a piece of the function was extracted into a helper or not.
 
 class PState:
-    __slots__ = ("kind", "taint", "facts", "tfacts", "hist", "ev", "errs")
+    __slots__ = ("kind", "taint", "facts", "tfacts", "hist", "ev", "errs", "oks", "alias", "nul")
 
     def __init__(self) -> None:
         self.kind: dict[str, tuple[str, int | None]] = {}
@@ -51,6 +57,9 @@ class PState:
         self.hist: frozenset[tuple[str, bool]] = frozenset()
         self.ev: frozenset[str] = frozenset()
         self.errs: frozenset[int] = frozenset()     # conversions found to be an error on this path (kept when the name is re-bound)
+        self.oks: frozenset[int] = frozenset()      # conversions found not to be an error on this path
+        self.alias: frozenset[str] = frozenset()    # names that hold the subject (the value under conversion) itself
+        self.nul = False                            # on this path the subject was found to be None / to be a Value already
 
     def copy(self) -> "PState":
         s = PState()
@@ -61,11 +70,14 @@ class PState:
         s.hist = self.hist
         s.ev = self.ev
         s.errs = self.errs
+        s.oks = self.oks
+        s.alias = self.alias
+        s.nul = self.nul
         return s
 
     def key(self) -> tuple:
         return (tuple(sorted(self.kind.items(), key=lambda kv: kv[0])), self.taint, tuple(sorted(self.facts.items())), self.tfacts,
-                self.hist, self.ev, self.errs)
+                self.hist, self.ev, self.errs, self.oks, self.alias, self.nul)
 
     def said(self, text: str, truth: bool) -> bool:
         return (text, truth) in self.hist
@@ -96,25 +108,103 @@ def _is_none(e: ast.AST) -> bool:
     return isinstance(e, ast.Constant) and e.value is None
 
 
+def _arms(e: ast.expr) -> list[ast.expr]:
+    """what `x = e` may assign as a whole: e, or the arms of a conditional expression"""
+    return _arms(e.body) + _arms(e.orelse) if isinstance(e, ast.IfExp) else [e]
+
+
+class _Unwalrus(ast.NodeTransformer):
+    def visit_NamedExpr(self, n: ast.NamedExpr) -> ast.AST:
+        return n.target
+
+
+class _Rename(ast.NodeTransformer):
+    def __init__(self, m: dict[str, str]) -> None:
+        self.m = m
+
+    def visit_Name(self, n: ast.Name) -> ast.AST:
+        n.id = self.m.get(n.id, n.id)
+        return n
+
+    def visit_arg(self, n: ast.arg) -> ast.AST:
+        n.arg = self.m.get(n.arg, n.arg)
+        return n
+
+    def visit_ExceptHandler(self, n: ast.ExceptHandler) -> ast.AST:
+        if n.name:
+            n.name = self.m.get(n.name, n.name)
+        self.generic_visit(n)
+        return n
+
+
+def _helpers_of(ix: Any, f: Any, depth: int = 3) -> dict[str, Any]:
+    """private helpers of f's region by name (a name that is defined twice resolves to nothing)"""
+    by: dict[str, list[Any]] = {}
+    for h in region(ix, f, depth)[1:]:
+        if h.qual != f.qual and not isinstance(h.node, ast.AsyncFunctionDef) and not any(
+                isinstance(n, (ast.Yield, ast.YieldFrom)) for n in ast.walk(h.node)):
+            by.setdefault(h.name, []).append(h)
+    return {n: hs[0] for n, hs in by.items() if len(hs) == 1}
+
+
+def _arg_map(c: ast.Call, h: Any) -> dict[str, ast.expr]:
+    """helper parameter -> argument expression of this call"""
+    a = h.node.args
+    pos = [x.arg for x in [*a.posonlyargs, *a.args]]
+    if h.kind in ("method", "classmethod") and isinstance(c.func, ast.Attribute):
+        pos = pos[1:]
+    out: dict[str, ast.expr] = {}
+    for i, arg in enumerate(c.args):
+        if isinstance(arg, ast.Starred) or i >= len(pos):
+            break
+        out[pos[i]] = arg
+    names = {x.arg for x in [*a.posonlyargs, *a.args, *a.kwonlyargs]}
+    for kw in c.keywords:
+        if kw.arg and kw.arg in names:
+            out[kw.arg] = kw.value
+    return out
+
+
 class Paths:
     def __init__(self, fn: ast.FunctionDef, tainted: set[str] = frozenset(), source: Callable[[ast.AST], bool] | None = None,
-                 source_nonnull: bool = False) -> None:
+                 source_nonnull: bool = False, subject: str | None = None, helpers: dict[str, Any] | None = None) -> None:
+        """subject  the parameter whose value is being converted (R13.2): what is decided about it under any of its names counts
+                    as decided about the value
+           helpers  the private helpers of fn's region (_helpers_of): calls to them are walked in place"""
         self.fn = fn
         a = fn.args
         self.params = {x.arg for x in [*a.posonlyargs, *a.args, *a.kwonlyargs]}
         self.source = source or (lambda n: False)
         self.source_nonnull = source_nonnull
+        self.helpers = helpers or {}
         self.sites: dict[int, tuple[ast.Call, bool]] = {}    # conversion call -> (node, argument derived from the source?)
+        self.walked: dict[int, list[ast.Call]] = {}          # conversion call -> the call as it was walked (in a helper: in the
+        #                                                      caller's names where parameters were bound to plain names)
         self.records: list[tuple[ast.stmt | None, PState]] = []  # (simple statement | None = end of function, state before it)
         self._names: dict[str, set[str]] = {}
         self._try: list[list[PState]] = []
+        self._orig: dict[int, ast.AST] = {}       # node of an in-place copy of a helper -> the helper's own node
+        self._expansions: dict[int, tuple[ast.FunctionDef, list[tuple[str, ast.expr | None]]]] = {}
+        self._active: list[str] = []              # helpers being walked in place
+        self._ret: list[list[tuple[PState, ast.expr | None]]] = []   # what the helper being walked returns, per path
+        self._inner: set[int] = set()             # return statements of helpers (not returns of fn)
+        self._synth: set[int] = set()             # `return <what the helper returned>`: stands for a return of fn, is no source statement
         s0 = PState()
         s0.taint = frozenset(tainted)
         for p in self.params:
             s0.kind[p] = ("param", None)
+        if subject is not None:
+            s0.alias = frozenset({subject})
         outs = self._block(fn.body, [s0], None)
         for s in outs:
             self.records.append((None, s))
+
+    def origin(self, n: ast.AST) -> ast.AST:
+        """the node of the analysed source that n stands for (n itself unless it belongs to a helper walked in place)"""
+        return self._orig.get(id(n), n)
+
+    def oid(self, n: ast.AST) -> int:
+        return id(self.origin(n))
 
     # -- queries ------------------------------------------------------------------------------------------------------------
     def derived(self, e: ast.AST | None, st: PState) -> bool:
@@ -134,8 +224,7 @@ class Paths:
             if last in ERROR_CLASSES or last in ERROR_ONLY_HELPERS:
                 return ("error", None)
             if last.endswith("convert_value"):
-                self.sites[id(e)] = (e, bool(e.args) and self.derived(e.args[0], st))
-                return ("conv", id(e))
+                return ("conv", self._site(e, st))
             if last == "Value":
                 return ("built", None)
             if last in _NONNULL_CALLS:
@@ -145,6 +234,13 @@ class Paths:
             return ("nonnull", None)
         return ("other", None)
 
+    def _site(self, c: ast.Call, st: PState) -> int:
+        k = self.oid(c)
+        if all(x is not c for x in self.walked.setdefault(k, [])):
+            self.walked[k].append(c)
+        self.sites[k] = (self.origin(c), self.sites.get(k, (c, False))[1] or (bool(c.args) and self.derived(c.args[0], st)))
+        return k
+
     def returned(self, st_node: ast.stmt | None, st: PState) -> tuple[str, int | None]:
         """kind of what a return statement (None: falling off the end) hands back; for a tuple, of its first element"""
         v = st_node.value if isinstance(st_node, ast.Return) else None
@@ -152,8 +248,12 @@ class Paths:
             v = v.elts[0]
         return self.kind_of(v, st)
 
+    def stmts(self) -> list[tuple[ast.stmt, PState]]:
+        """every simple statement of the source that was walked (of fn and of the helpers walked in place), with the state before it"""
+        return [(n, s) for n, s in self.records if n is not None and id(n) not in self._synth]
+
     def returns(self) -> list[tuple[ast.stmt | None, PState]]:
-        return [(n, s) for n, s in self.records if n is None or isinstance(n, ast.Return)]
+        return [(n, s) for n, s in self.records if n is None or (isinstance(n, ast.Return) and id(n) not in self._inner)]
 
     # -- walking --------------------------------------------------------------------------------------------------------------
     def _block(self, body: list[ast.stmt], states: list[PState], loop: dict | None) -> list[PState]:
@@ -207,7 +307,51 @@ class Paths:
             for c in n.cases:
                 outs += self._block(c.body, [s.copy()], loop)
             return outs
+        return self._simple(n, s, loop, 0)
+
+    def _simple(self, n: ast.stmt, s: PState, loop: dict | None, depth: int) -> list[PState]:
+        """a simple statement: first the helpers it calls are walked in place; a helper call that is what the statement returns /
+        assigns continues each of the helper's returning paths with `return <what was returned>` / `<targets> = <what was returned>`
+        (assignments: _assign)"""
+        value = getattr(n, "value", None) if isinstance(n, (ast.Assign, ast.AnnAssign, ast.Return, ast.Expr)) else None
+        if isinstance(n, ast.Return) and isinstance(value, ast.IfExp) and depth < 4:   # return A if T else B  is  if T: return A  else: return B
+            t, f = self._branch(value.test, s)
+            out = []
+            for states, arm in ((t, value.body), (f, value.orelse)):
+                n2 = ast.copy_location(ast.Return(value=arm), n)
+                self._orig[id(n2)] = self.origin(n)
+                self._synth.add(id(n2))
+                for x in states:
+                    out += self._simple(n2, x, loop, depth + 1)
+            return out
+        assigned = {id(v) for v in _arms(value)} if isinstance(n, (ast.Assign, ast.AnnAssign)) and value is not None else set()
+        whole = value if isinstance(n, (ast.Return, ast.Expr)) and isinstance(value, ast.Call) and self._target(value) is not None \
+            and depth < 4 else None
+        states = [s]
+        for c in [c for c in calls_in(n) if c is not whole and id(c) not in assigned and self._target(c) is not None]:
+            states = _dedupe([s2 for x in states for s2, _ in self._inline(c, x)])
+        if whole is None:
+            return [y for x in states for y in self._leaf(n, x, loop)]
+        out = []
+        for x in states:
+            for s2, rv in self._inline(whole, x):
+                rv = rv if rv is not None else ast.Constant(value=None)
+                n2: ast.stmt = ast.Return(value=rv) if isinstance(n, ast.Return) else ast.Expr(value=rv)
+                ast.copy_location(n2, n)
+                self._orig[id(n2)] = self.origin(n)
+                self._synth.add(id(n2))
+                out += self._simple(n2, s2, loop, depth + 1)
+        return out
+
+    def _leaf(self, n: ast.stmt, s: PState, loop: dict | None) -> list[PState]:
         self.records.append((n, s))
+        for c in calls_in(n):
+            if call_name(c).endswith("convert_value"):
+                self._site(c, s)
+        if isinstance(n, ast.Return) and self._ret:
+            self._inner.add(id(n))
+            self._ret[-1].append((s, n.value))
+            return []
         if isinstance(n, (ast.Return, ast.Raise)):
             return []
         if isinstance(n, ast.Break):
@@ -227,6 +371,73 @@ class Paths:
             self._assign_target(s, n.target, ("other", None), self.derived(n.value, s) or self.derived(n.target, s))
             return [s]
         return [s]
+
+    # -- helpers walked in place ----------------------------------------------------------------------------------------------------
+    def _target(self, c: ast.Call) -> Any:
+        cn = call_name(c)
+        head, _, last = cn.rpartition(".")
+        h = self.helpers.get(last)
+        if h is None or not (head in ("", "self", "cls") or head[:1].isupper()) or h.node is self.fn or h.qual in self._active \
+                or len(self._active) >= 3:
+            return None
+        return h
+
+    def _expand(self, c: ast.Call, h: Any) -> tuple[ast.FunctionDef, list[tuple[str, ast.expr | None]]]:
+        """a copy of the helper for this call site: a parameter that receives a plain name and is never re-bound is that name, every
+        other parameter / local gets a name of its own, (name, argument) pairs say what to bind before the body runs"""
+        key = id(c)     # per call as walked: the same call of a helper that is itself walked at two places sees different names
+        if key in self._expansions:
+            return self._expansions[key]
+        fn = copy.deepcopy(h.node)
+        for o, n in zip(ast.walk(h.node), ast.walk(fn)):
+            self._orig[id(n)] = o
+        a = fn.args
+        params = [x.arg for x in [*a.posonlyargs, *a.args, *a.kwonlyargs]]
+        extra = [x.arg for x in (a.vararg, a.kwarg) if x is not None]
+        stored = {x.id for x in ast.walk(fn) if isinstance(x, ast.Name) and isinstance(x.ctx, (ast.Store, ast.Del))}
+        stored |= {x.name for x in ast.walk(fn) if isinstance(x, ast.ExceptHandler) and x.name}
+        inner_args = {x.arg for f in ast.walk(fn) if f is not fn and isinstance(f, (ast.FunctionDef, ast.AsyncFunctionDef, ast.Lambda))
+                      for x in ast.walk(f.args) if isinstance(x, ast.arg)}
+        tag = f"__{h.name.strip('_')}{len(self._expansions) + 1}"
+        amap = _arg_map(c, h)
+        defaults = dict(zip([x.arg for x in [*a.posonlyargs, *a.args]][len(a.posonlyargs) + len(a.args) - len(a.defaults):], a.defaults))
+        defaults.update({x.arg: d for x, d in zip(a.kwonlyargs, a.kw_defaults) if d is not None})
+        bound_first = h.kind in ("method", "classmethod") and isinstance(c.func, ast.Attribute) and params
+        ren: dict[str, str] = {}
+        binds: list[tuple[str, ast.expr | None]] = []
+        for i, p in enumerate(params):
+            arg = amap.get(p)
+            if bound_first and i == 0 and isinstance(c.func.value, ast.Name) and c.func.value.id == p and p not in stored:
+                continue     # self.helper(...) / cls.helper(...): the same self / cls
+            if isinstance(arg, ast.Name) and p not in stored and p not in inner_args:
+                ren[p] = arg.id
+                continue
+            ren[p] = p + tag
+            binds.append((ren[p], arg if arg is not None else defaults.get(p)))
+        for x in extra:
+            ren[x] = x + tag
+            binds.append((ren[x], None))
+        for x in (stored | inner_args) - set(ren):
+            ren[x] = x + tag
+        _Rename(ren).visit(fn)
+        self._expansions[key] = (fn, binds)
+        return fn, binds
+
+    def _inline(self, c: ast.Call, s: PState) -> list[tuple[PState, ast.expr | None]]:
+        """walk the helper this call goes to; (state, returned expression | None) for every path that comes back"""
+        h = self._target(c)
+        fn, binds = self._expand(c, h)
+        s = s.copy()
+        vals = [(nm, (self.kind_of(arg, s), self.derived(arg, s), self._is_alias(arg, s)) if arg is not None else (("other", None), False, False))
+                for nm, arg in binds]
+        for nm, (k, d, al) in vals:
+            self._bind(s, nm, k, d, al)
+        self._active.append(h.qual)
+        self._ret.append([])
+        outs = self._block(fn.body, [s], None)
+        rets = self._ret.pop()
+        self._active.pop()
+        return rets + [(x, None) for x in outs]
 
     def _loop(self, n: ast.For | ast.While, s: PState, outer: dict | None) -> list[PState]:
         seen: dict[tuple, PState] = {}
@@ -256,25 +467,45 @@ class Paths:
             exits = self._block(n.orelse, exits, outer)
         return _dedupe(exits + brk)
 
-    def _assign(self, s: PState, targets: list[ast.expr], value: ast.expr) -> list[PState]:
+    def _assign(self, s: PState, targets: list[ast.expr], value: ast.expr, depth: int = 0) -> list[PState]:
         if isinstance(value, ast.IfExp):   # x = A if T else B  is  if T: x = A  else: x = B
             t, f = self._branch(value.test, s)
             out: list[PState] = []
             for x in t:
-                out += self._assign(x, targets, value.body)
+                out += self._assign(x, targets, value.body, depth)
             for x in f:
-                out += self._assign(x, targets, value.orelse)
+                out += self._assign(x, targets, value.orelse, depth)
             return out
+        if isinstance(value, ast.Call) and depth < 4 and self._target(value) is not None:   # x = helper(...): walked in place
+            out = []
+            for s2, rv in self._inline(value, s):
+                out += self._assign(s2, targets, rv if rv is not None else ast.Constant(value=None), depth + 1)
+            return out
+        if isinstance(value, ast.Tuple) and len(targets) == 1 and isinstance(targets[0], (ast.Tuple, ast.List)) and len(
+                targets[0].elts) == len(value.elts) and not any(isinstance(e, ast.Starred) for e in [*value.elts, *targets[0].elts]):
+            # a, b = x, y: element by element (all right-hand sides are evaluated first)
+            vals = [(self.kind_of(v, s), self.derived(v, s), self._is_alias(v, s)) for v in value.elts]
+            s = s.copy()
+            for t_, (k, d, al) in zip(targets[0].elts, vals):
+                self._assign_target(s, t_, k, d, al)
+            return [s]
         k = self.kind_of(value, s)
         d = self.derived(value, s)
+        al = self._is_alias(value, s)
         s = s.copy()
         for t_ in targets:
-            self._assign_target(s, t_, k, d)
+            self._assign_target(s, t_, k, d, al)
         return [s]
 
-    def _assign_target(self, s: PState, t: ast.expr, k: tuple[str, int | None], d: bool) -> None:
+    def _is_alias(self, e: ast.expr | None, s: PState) -> bool:
+        """is e the subject itself"""
+        if isinstance(e, ast.Call) and call_name(e).rsplit(".", 1)[-1] == "cast" and len(e.args) == 2:
+            e = e.args[1]
+        return isinstance(e, ast.Name) and e.id in s.alias
+
+    def _assign_target(self, s: PState, t: ast.expr, k: tuple[str, int | None], d: bool, al: bool = False) -> None:
         if isinstance(t, ast.Name):
-            self._bind(s, t.id, k, d)
+            self._bind(s, t.id, k, d, al)
         elif isinstance(t, (ast.Tuple, ast.List)):
             for e in t.elts:
                 self._assign_target(s, e, ("other", None), d)
@@ -286,9 +517,10 @@ class Paths:
                 del s.facts[f]
             s.tfacts = tuple(x for x in s.tfacts if txt not in x[0])
 
-    def _bind(self, s: PState, name: str, k: tuple[str, int | None], d: bool) -> None:
+    def _bind(self, s: PState, name: str, k: tuple[str, int | None], d: bool, al: bool = False) -> None:
         s.kind[name] = k
         s.taint = (s.taint | {name}) if d else (s.taint - {name})
+        s.alias = (s.alias | {name}) if al else (s.alias - {name})
         for f in [f for f in s.facts if name in self._names.get(f, ())]:
             del s.facts[f]
         s.tfacts = tuple(x for x in s.tfacts if name not in self._names.get(x[0], ()))
@@ -311,6 +543,32 @@ class Paths:
             return f, t
         if isinstance(e, ast.Constant):
             return ([s], []) if e.value else ([], [s])
+        walrus = [n for n in ast.walk(e) if isinstance(n, ast.NamedExpr)]
+        if walrus:   # `(x := E) is None`  is  `x = E` followed by `x is None`
+            cur = [s]
+            for w in reversed(walrus):   # innermost first
+                cur = [y for x in cur for y in self._assign(x, [w.target], w.value)]
+            e = _Unwalrus().visit(ast.parse(norm(e), mode="eval").body)
+            t_all: list[PState] = []
+            f_all: list[PState] = []
+            for x in cur:
+                t, f = self._branch(e, x)
+                t_all += t
+                f_all += f
+            return t_all, f_all
+        if isinstance(e, ast.Call) and self._target(e) is not None:   # if helper(...): a helper that is one returned expression is that test
+            fn, binds = self._expand(e, self._target(e))
+            body = [x for x in fn.body if not (isinstance(x, ast.Expr) and isinstance(x.value, ast.Constant))]
+            if len(body) == 1 and isinstance(body[0], ast.Return) and body[0].value is not None:
+                s = s.copy()
+                for nm, (k, d, al) in [(nm, (self.kind_of(arg, s), self.derived(arg, s), self._is_alias(arg, s)) if arg is not None
+                                        else (("other", None), False, False)) for nm, arg in binds]:
+                    self._bind(s, nm, k, d, al)
+                self._active.append(self._target(e).qual)
+                try:
+                    return self._branch(body[0].value, s)
+                finally:
+                    self._active.pop()
         pos, flip = _positive(e)
         text = norm(pos)
         self._names.setdefault(text, names_in(pos))
@@ -345,12 +603,19 @@ class Paths:
                             s.errs = s.errs | {site}
                     elif tag == "conv":
                         s.kind[subj.id] = ("valid", site)
+                        s.oks = s.oks | {site}
                         about_source = evidence = self.sites[site][1]   # the delegate accepted the source value
+                    if tag == "conv":   # every name that holds this same result
+                        for nm, k in list(s.kind.items()):
+                            if k == ("conv", site):
+                                s.kind[nm] = s.kind[subj.id]
             else:
                 if truth and tag == "none" and "object" not in tn and "NoneType" not in tn:
                     return None
                 if truth and tag == "param" and tn == ["Value"]:
                     s.kind[subj.id] = ("passed", None)
+                if truth and tn == ["Value"] and isinstance(subj, ast.Name) and subj.id in s.alias:
+                    s.nul = True
                 about_source = self.derived(subj, s)
                 evidence = about_source and truth
                 if all(x in _BUILTIN_EXT for x in tn):
@@ -380,6 +645,8 @@ class Paths:
                         return None
                     if truth:
                         s.kind[subj.id] = ("none", None)
+                        if subj.id in s.alias:
+                            s.nul = True
                 about_source = self.derived(subj, s)
             elif isinstance(op, (ast.Eq, ast.In)):
                 about_source = self.derived(l, s) or self.derived(r, s)
@@ -447,30 +714,33 @@ def run(rep: Report, ctx: Any) -> str:
 
     props = ix.property_classes()
     # ---- R13.1 ---------------------------------------------------------------------------------------------------------
+    # asked of the builder with the private helpers of its region walked in place (so the conversion, the test, the registration
+    # and the construction may each sit in `build` or in a helper it hands the default - or the schema declaring it - to)
     n_b = 0
     for c in props:
         b = c.methods.get("build")
         if b is None:
             continue
         params = [p.arg for p in b.params]
-        takes_default = "default" in params or any("data.default" in norm(n) for n in ast.walk(b.node))
+        helpers = _helpers_of(ix, b)
+        reg_fns = [b, *helpers.values()]
+        is_source = lambda n: isinstance(n, ast.Attribute) and norm(n) == "data.default" and "data" in params  # noqa: E731
+        takes_default = "default" in params or any(is_source(n) for f in reg_fns for n in ast.walk(f.node))
         if not takes_default or c.name in NO_DEFAULT - {"FileProperty"}:
             continue
         n_b += 1
         key = f"{c.name}.build"
-        conv = [n for n in ast.walk(b.node) if isinstance(n, ast.Call) and call_name(n).endswith("convert_value")]
+        pp = Paths(b.node, tainted={"default"} & set(params), source=is_source, helpers=helpers)
+        conv = [n for f in reg_fns for n in ast.walk(f.node) if isinstance(n, ast.Call) and call_name(n).endswith("convert_value")]
         rep.check(bool(conv), "R13.1", key + "::converts", "the builder does not pass the default through convert_value", where(b, b.node),
                   lhs=[norm(x)[:50] for x in conv], rhs="convert_value(default)")
         if not conv:
             continue
-        is_default = lambda n: (isinstance(n, ast.Name) and n.id == "default" and "default" in params) or (  # noqa: E731
-            isinstance(n, ast.Attribute) and n.attr == "default")
-        dconv = [x for x in conv if x.args and is_default(x.args[0])]
+        dconv = [x for x, from_default in pp.sites.values() if from_default]
         rep.check(bool(dconv), "R13.1", key + "::converts-default", "convert_value is not applied to the declared default", where(b, conv[0]),
                   lhs=[norm(x)[:60] for x in conv], rhs="argument is the default")
         if c.name in PERMISSIVE or not dconv:
             continue
-        pp = Paths(b.node, tainted={"default"} & set(params), source=lambda n: isinstance(n, ast.Attribute) and norm(n) == "data.default")
         sites = {id(x) for x in dconv}
         # a result that is an error is returned; nothing else is returned while the result is untested
         lost, untested = _conversion_outcome(pp, sites)
@@ -480,17 +750,15 @@ def run(rep: Report, ctx: Any) -> str:
                   rhs="every path: isinstance(<converted>, PropertyError) decided; yes -> it is returned")
         # registration (classes_by_name) only on paths where the result was found not to be an error
         regs: dict[int, tuple[ast.stmt, list[bool]]] = {}
-        for n, s in pp.records:
-            if n is not None and any(kw.arg == "classes_by_name" for c_ in _calls_of(n) for kw in c_.keywords):
-                regs.setdefault(id(n), (n, []))[1].append(any(tag == "valid" and site in sites for tag, site in s.kind.values()))
+        for n, s in pp.stmts():
+            if any(kw.arg == "classes_by_name" for c_ in _calls_of(n) for kw in c_.keywords):
+                regs.setdefault(pp.oid(n), (n, []))[1].append(bool(s.oks & sites))
         for n, oks in regs.values():
             rep.check(all(oks), "R13.1", key + "::registered-after-check", "the class is registered before its default has been validated",
                       where(b, n), lhs=norm(n)[:60], rhs="only on paths where the converted default was tested and is no error")
         # stored default is the converted value
         stored: list[tuple[ast.expr, PState]] = []
-        for n, s in pp.records:
-            if n is None:
-                continue
+        for n, s in pp.stmts():
             for c_ in _calls_of(n):
                 if call_name(c_).rsplit(".", 1)[-1] in ("cls", "evolve", c.name):
                     stored += [(kw.value, s) for kw in c_.keywords if kw.arg == "default"]
@@ -501,7 +769,7 @@ def run(rep: Report, ctx: Any) -> str:
         rep.check(bool(final) and not bad, "R13.1", key + "::stores-converted",
                   "the property stores something other than the converted default", where(b, b.node),
                   lhs=bad or [norm(v)[:40] for v, _ in final], rhs="the tested result of convert_value(default)")
-    rep.floor("builders_with_default", n_b, 11)
+    rep.floor("builders_with_default", n_b, 7)
 
     # ---- R13.2 -------------------------------------------------------------------------------------------------------------
     n_c = 0
@@ -513,15 +781,15 @@ def run(rep: Report, ctx: Any) -> str:
         key = f"{c.name}.convert_value"
         pname = _value_param(cv)
         rep.require(pname, f"value parameter of {key}")
-        pp = Paths(cv.node, tainted={pname})
+        pp = Paths(cv.node, tainted={pname}, subject=pname, helpers=_helpers_of(ix, cv))
         rets = [(n, s, pp.returned(n, s)) for n, s in pp.returns()]
         if c.name in ("ListProperty",):
             rep.check(all(k[0] == "none" for _, _, k in rets), "R13.2", key + "::no-default-kind", "a list default is turned into code",
                       where(cv, cv.node), lhs=sorted({k[0] for _, _, k in rets}), rhs="lists take no default: returns None")
             continue
-        # paths on which nothing positive was established about a value that is neither None nor already a Value
-        nullish = lambda s: s.said(f"{pname} is None", True) or s.said(f"isinstance({pname}, Value)", True)  # noqa: E731
-        blind = [(n, s, k) for n, s, k in rets if not s.ev and not nullish(s)]
+        # paths on which nothing positive was established about a value that is neither None nor already a Value (found so under
+        # any of its names, in the function or in a helper walked in place)
+        blind = [(n, s, k) for n, s, k in rets if not s.ev and not s.nul]
         bad = sorted({f"{norm(n)[:60] if n is not None else '<end of function>'} ({k[0]})" for n, s, k in blind if k[0] != "error"})
         first_bad = next((n for n, s, k in blind if k[0] != "error" and n is not None), cv.node)
         rep.check(not bad, "R13.2", key + "::fallthrough", "the fall-through of convert_value is not a PropertyError (unknown values are accepted "
@@ -530,10 +798,10 @@ def run(rep: Report, ctx: Any) -> str:
         by_ret: dict[int, list[tuple[ast.stmt, PState]]] = {}
         for n, s, k in rets:
             if n is not None and k[0] in ACCEPTING:
-                by_ret.setdefault(id(n), []).append((n, s))
+                by_ret.setdefault(pp.oid(n), []).append((n, s))
         int_ok: list[bool] = []
         for group in by_ret.values():
-            n = group[0][0]
+            n = pp.origin(group[0][0])     # the function's own return statement (also when it returns what a helper returned)
             naked = [sorted(f"{t}={v}" for t, v in s.hist) for _, s in group if not s.ev]
             rep.check(not naked, "R13.2", key + f"::accept[{role_anon(n.value, cv.node)[:40]}]",
                       "a default is accepted without any type or membership test", where(cv, n), lhs=naked[:3] or sorted(set().union(*[s.ev for _, s in group])),
@@ -546,15 +814,34 @@ def run(rep: Report, ctx: Any) -> str:
         if int_ok:
             rep.check(all(int_ok), "R13.2", key + "::bool-excluded", "booleans are accepted where an integer is expected (True == 1)",
                       where(cv, cv.node), lhs=f"{sum(int_ok)}/{len(int_ok)} accepting int paths exclude bool", rhs="and not isinstance(value, bool)")
-    rep.floor("typed_convert_value", n_c, 11)
-    # const: acceptance compares converted Values (typed comparison), never raw values
-    cc = ix.cls("ConstProperty").methods.get("convert_value")
-    cmp_ = [n for n in ast.walk(cc.node) if isinstance(n, ast.Compare) and isinstance(n.ops[0], (ast.NotEq, ast.Eq))]
+    rep.floor("typed_convert_value", n_c, 7)
+    # const: acceptance compares converted Values (typed comparison), never raw values.  The comparison with the property's `value`
+    # field is looked for in convert_value and the private helpers of its region.
+    const_cls = ix.cls("ConstProperty")
+    cc = const_cls.methods.get("convert_value")
+    value_cls = ix.cls("Value").qual
+    cmp_fns = [cc, *_helpers_of(ix, cc).values()]
+    cmp_ = [(f, n) for f in cmp_fns for n in ast.walk(f.node) if isinstance(n, ast.Compare) and isinstance(n.ops[0], (ast.NotEq, ast.Eq))
+            and (f is cc or any(isinstance(x, ast.Attribute) and x.attr == "value" for x in (n.left, n.comparators[0])))]
     rep.require(cmp_, "comparison in ConstProperty.convert_value")
-    for n in cmp_:
-        l, r = it.node_av.get(id(n.left)), it.node_av.get(id(n.comparators[0]))
-        value_cls = ix.cls("Value").qual
-        ok = l is not None and r is not None and value_cls in l.types and value_cls in r.types
+
+    def operand_types(e: ast.expr, f: Any) -> set[str]:
+        """types the flow interpretation found for the operand; where it did not evaluate this very node (a test inside a conditional
+        expression): for a name, what it found for the other occurrences of that name; for a field of self, the field's annotation"""
+        av = it.node_av.get(id(e))
+        if av is not None:
+            return set(av.types)
+        if isinstance(e, ast.Name):
+            return {t for m in ast.walk(f.node) if isinstance(m, ast.Name) and m.id == e.id and id(m) in it.node_av for t in it.node_av[id(m)].types}
+        if isinstance(e, ast.Attribute) and isinstance(e.value, ast.Name) and e.value.id == "self":
+            ann = const_cls.fields.get(e.attr)
+            return {value_cls} if ann is not None and "Value" in {x.id for x in ast.walk(ann) if isinstance(x, ast.Name)} | {
+                str(x.value).strip() for x in ast.walk(ann) if isinstance(x, ast.Constant)} else set()
+        return set()
+
+    for f_, n in cmp_:
+        l, r = operand_types(n.left, f_), operand_types(n.comparators[0], f_)
+        ok = value_cls in l and value_cls in r
         rep.check(ok, "R13.2", "ConstProperty.convert_value::typed-comparison",
                   "the const check compares raw JSON values with == (True == 1, 1.0 == 1): a default of another JSON type is accepted",
                   where(cc, n), lhs=[norm(n.left), norm(n.comparators[0])], rhs="both operands are converted Value objects")
@@ -567,20 +854,21 @@ def run(rep: Report, ctx: Any) -> str:
         pasted = {l for l in pc.labels if l in (RAW, UNKNOWN, RAW_NONSTR) or is_esc(l)}
         rep.check(not pasted, "R13.3", fq.replace(PKG + ".", "") + "::Value.python_code", f"document text pasted into code ({sorted(pasted)})",
                   w, lhs=sorted(pc.labels), rhs="built, not pasted")
-    rep.floor("value_constructions", len(last_), 12)
+    rep.floor("value_constructions", len(last_), 8)
 
     # ---- R13.4 ------------------------------------------------------------------------------------------------------------------
     pfr = ix.func("properties._property_from_ref")
     pl = Locals(pfr.node)
-    existing = set(pl.bound_from(lambda v: v.startswith("schemas.classes_by_reference.get("), "assign"))
-    conv = [n for n in ast.walk(pfr.node) if isinstance(n, ast.Call) and isinstance(n.func, ast.Attribute) and n.func.attr == "convert_value"
-            and norm(n.func.value) in existing and n.args and norm(n.args[0]) == "parent.default"]
-    rep.check(bool(conv), "R13.4", "_property_from_ref::converts-with-referenced-class",
+    # the referenced class: what was looked up in schemas.classes_by_reference (by .get / subscript)
+    existing = set(pl.bound_from(lambda v: ".classes_by_reference.get(" in v or ".classes_by_reference[" in v, "assign"))
+    pp = Paths(pfr.node, source=lambda n: isinstance(n, ast.Attribute) and norm(n) == "parent.default", helpers=_helpers_of(ix, pfr))
+    # conversions of parent.default by the referenced class, in the function or in a helper walked in place
+    sites = {k for k, (c_, from_default) in pp.sites.items() if from_default and all(
+        isinstance(w.func, ast.Attribute) and w.func.attr == "convert_value" and norm(w.func.value) in existing for w in pp.walked[k])}
+    rep.check(bool(sites), "R13.4", "_property_from_ref::converts-with-referenced-class",
               "the wrapper's default is not converted by the referenced class", where(pfr, pfr.node))
-    pp = Paths(pfr.node, source=lambda n: isinstance(n, ast.Attribute) and norm(n) == "parent.default")
-    sites = {id(x) for x in conv}
     # every path that reaches the evolve(): no wrapper (parent is None), or the default is the conversion of parent.default
-    evolves = [(n, c_, kw.value, s) for n, s in pp.records if n is not None for c_ in _calls_of(n) if call_name(c_).endswith("evolve")
+    evolves = [(n, c_, kw.value, s) for n, s in pp.stmts() for c_ in _calls_of(n) if call_name(c_).endswith("evolve")
                and c_.args and norm(c_.args[0]) in existing for kw in c_.keywords if kw.arg == "default"]
     rep.require(evolves, "evolve(<referenced class>, default=...) in _property_from_ref")
     skipped = sorted({", ".join(sorted(f"{t}={v}" for t, v in s.facts.items() if "parent" in t)) for n, c_, d, s in evolves
@@ -596,9 +884,9 @@ def run(rep: Report, ctx: Any) -> str:
               "is built", where(pfr, pfr.node), lhs=lost + untested + raw, rhs="every path: a conversion error is returned, evolve() gets a tested result")
 
     mca = ix.func("merge_properties._merge_common_attributes")
-    pm = Paths(mca.node)
+    pm = Paths(mca.node, helpers=_helpers_of(ix, mca))
     # every value flowing into evolve(<merged>, default=...) is <merged>.default or the tested <merged>.convert_value(...) on that path
-    m_evolves = [(n, c_, kw.value, s) for n, s in pm.records if n is not None for c_ in _calls_of(n) if call_name(c_).endswith("evolve")
+    m_evolves = [(n, c_, kw.value, s) for n, s in pm.stmts() for c_ in _calls_of(n) if call_name(c_).endswith("evolve")
                  and c_.args for kw in c_.keywords if kw.arg == "default"]
     rep.require(m_evolves, "evolve(<merged>, default=...) in _merge_common_attributes")
     bad_m: set[str] = set()
@@ -609,8 +897,7 @@ def run(rep: Report, ctx: Any) -> str:
             if _is_none(o) or norm(o) == f"{acc}.default":
                 continue
             tag, site = pm.kind_of(o, s)
-            call = pm.sites[site][0] if site in pm.sites else None
-            by_merged = call is not None and isinstance(call.func, ast.Attribute) and norm(call.func.value) == acc
+            by_merged = site in pm.walked and all(isinstance(w.func, ast.Attribute) and norm(w.func.value) == acc for w in pm.walked[site])
             if by_merged:
                 m_sites.add(site)
             if tag == "none" or (by_merged and tag in ("valid", "conv")):
@@ -633,7 +920,7 @@ def run(rep: Report, ctx: Any) -> str:
     ts = ix.cls("PropertyProtocol").methods.get("to_string")
     ann = ix.cls("Value").fields.get("python_code")
     pt = Paths(ts.node, source=lambda n: isinstance(n, ast.Attribute) and norm(n) == "self.default.python_code",
-               source_nonnull=ann is not None and norm(ann).strip("'\"") == "str")
+               source_nonnull=ann is not None and norm(ann).strip("'\"") == "str", helpers=_helpers_of(ix, ts))
     t_rets = pt.returns()
     with_default = [(n, s) for n, s in t_rets if s.facts.get("self.default is None") is False or s.facts.get("self.default") is True]
     silent = [norm(n)[:60] if n is not None else "<end of function>" for n, s in with_default
@@ -790,7 +1077,7 @@ def _override_order(rep: Report, ix: Any, sink: Any, pm: Paths, m_evolves: list)
                       "the last override of the merge is not the later declaration: an inherited / earlier default beats the one that "
                       "re-declares it", where(f, c), lhs=[f"{norm(x)}: {''.join(sorted(role(x, f))) or '?'}" for x in c.args],
                       rhs="last override is the later declaration (L)")
-    rep.floor("merge_common_attribute_calls", n_calls, 6)
+    rep.floor("merge_common_attribute_calls", n_calls, 5)
     # inside: overrides applied in argument order, the override's converted default preferred over the accumulated one
     va = sink.node.args.vararg.arg if sink.node.args.vararg else None
     rep.require(va, "*overrides parameter of _merge_common_attributes")
